@@ -65,7 +65,15 @@ func RestoreCreateContainerV2Request(contractCalls []event.NotaryEvent) (event.E
 	res.MainTransaction = *cnrCall.Raw().MainTransaction
 
 	if withOptionalEacl {
-		ev, err := RestorePutContainerEACLRequest(contractCalls[1])
+		// only the first call is filtered by the listener, the additional one
+		// must be checked here
+		eaclCall := contractCalls[1]
+		if !eaclCall.ScriptHash().Equals(cnrCall.ScriptHash()) || eaclCall.Type().String() != fschaincontracts.PutContainerEACLMethod {
+			return nil, fmt.Errorf("unexpected additional call %s of contract %s, only %s of the same contract is allowed",
+				eaclCall.Type(), eaclCall.ScriptHash().StringLE(), fschaincontracts.PutContainerEACLMethod)
+		}
+
+		ev, err := RestorePutContainerEACLRequest(eaclCall)
 		if err != nil {
 			return nil, fmt.Errorf("additional eACL setting parsing: %w", err)
 		}
